@@ -14,7 +14,7 @@ P = {
          TECH + "one seeded history replayed on several simulated hosts (CPU models), differential oracle"),
  "C07": ("objsim", "exploration", "Every block count 0..3*batch+3 on every parallel object kind x simulated host, compared block-by-block with the scalar functions; block-count dimension enumerated, data sampled. Thin fit.", "5/C07",
          TECH + "objsim with CPU models; block counts enumerated, scalar reference model"),
- "C08": ("ctsim", "exploration", "Restricted sense: paired replay. Each seeded public plan is executed with five secret assignments under identical simulated addresses; the recorded sequence of basic blocks and memory accesses of library code (compiler instrumentation, own call-backs) must be identical. Sees IR-level branches/addresses of instrumented builds (gcc -O3, gcc -O0, clang -O3), not micro-architectural timing.", "5/C08",
+ "C08": ("ctsim", "exploration", "Restricted sense: paired replay. Each seeded public plan is executed with five secret assignments under identical simulated addresses; the recorded sequence of basic blocks and of every load and store of library code, reads of constant tables included (compiler instrumentation with out-of-line call-backs of our own), must be identical. Sees IR-level branches/addresses of instrumented builds (gcc -O3, gcc -O0, clang -O3, hook-selected 32-bit paths), not micro-architectural timing.", "5/C08",
          TECH + "exact paired replay with trace equality (ctsim): same public schedule, different secrets, branch/address traces compared"),
  "C09": ("objsim", "exploration", "Simulator-placed buffers (guard pages, verified junk slabs, any alignment, overlap offsets, exact aliasing) on every buffer-taking function; results compared with the model computed from a private copy; plus an ASan/UBSan build. Thin fit.", "5/C09",
          TECH + "objsim with simulated buffer placement (guard pages, canaries) and sanitizer build"),
@@ -42,7 +42,7 @@ P = {
          TECH + "whole-program simulation over a simulated file layer (toolsim) with seeded short reads and I/O-fault configuration"),
 }
 NOTE = {"objsim": "Trusted: the simulator's seams (SimHeap, SimCPU trap emulation, SimDirt, SimMem) and models; the library runs as real code compiled from /repo's working tree with the repository's flags (gcc -O3), plus -O0 and clang ASan/UBSan flavours. Sampling: a clean run is evidence, not proof.",
-        "ctsim": "Trusted: compiler instrumentation (-fsanitize=thread, -fsanitize-coverage=trace-pc) reports every basic block and access of library code; 32-byte AVX accesses are not instrumented; five secret assignments per public plan.",
+        "ctsim": "Trusted: compiler instrumentation (-fsanitize=kernel-address with out-of-line call-backs, -fsanitize-coverage=trace-pc) reports every basic block and every load/store of library code including constant-table reads; libc memcpy/memset calls are not traced; seven secret assignments per public plan.",
         "thrsim": "Trusted: interleavings at compiler-visible-access granularity under sequential consistency; the instrumented build has the same sharing structure as the shipped one.",
         "cfgsim": "Trusted: the SKINNY_VERIF hook only overrides the five platform switches; -m32 and big-endian hosts are out of reach.",
         "toolsim": "Trusted: SimFS (fopencookie streams) and the tool model derived from examples/README.md and the usage text.",
